@@ -427,8 +427,10 @@ EXPLANATION = (
     "calls, stores to loop-carried state an exit depends on; operations handed to op_until/simple_op_until/take_until must "
     "advance on every path that returns Continue; the reviewed exceptions are re-verified structurally; "
     "(b) every panic-capable site between 'bytes read' and 'bytes written' is in a reviewed inventory whose guard is re-derived; "
-    "(c) the wrapping search is cut by iteration_max; (d) recursive call-graph cycles are inventoried; (e) lexer dispatch totality. "
-    "Not decided: polynomial running time, number of conditional-directive passes, well-foundedness of the P3 measures."
+    "(c) the wrapping search is cut by iteration_max; (d) recursive call-graph cycles are inventoried; (e) lexer dispatch totality; "
+    "(f) the wrapper's recursion into child lines is memoised (lookup miss dominates the recursive call, same key stored on every successful path, a hit does not solve again) — "
+    "a necessary condition of the polynomial-time clause. "
+    "Not decided: polynomial running time as such, number of conditional-directive passes, well-foundedness of the P3 measures."
 )
 ASSUMPTIONS = [
     "a progress witness is a necessary condition for termination (no cycle without a progress step), not a proof that the measure is well-founded",
@@ -605,6 +607,69 @@ def check_e(prog, rep):
         rep.check(ok, R, "eof-splits-at-blank-count", "eof() no longer splits the remainder at count_leading_whitespace of the same input")
 
 
+def check_f(prog, rep):
+    """C04.f — the recursion of the wrapper into child lines is memoised: every recursive call of find_optimal_solution from inside its
+    own call-graph cycle happens only after a cache lookup with the same key missed, and the result is stored under that key afterwards.
+    Without it the same child lines are solved once per explored parent node at every nesting level (work doubles per level)."""
+    R = "C04.f"
+    from util import canon
+    FOS = OLF + "InternalOptimisingLineFormatter::find_optimal_solution"
+    fos = prog.body(FOS)
+    if not rep.check(fos is not None, R, "anchor:find_optimal_solution", "find_optimal_solution not found"):
+        return
+    scc = None
+    for comp in prog.call_sccs():
+        if FOS in comp:
+            scc = comp
+    if not rep.check(scc is not None and len(scc) > 1, R, "anchor:recursion", "find_optimal_solution is no longer part of a call-graph cycle (the rule's structural basis is gone)"):
+        return
+    sites = [c for c in prog.who_calls(FOS) if c.body.npath in scc]
+    rep.floor(R, "recursive calls of find_optimal_solution", len(sites), 1)
+    for r in sites:
+        b = r.body
+        gets = [c for c in b.calls() if c.callee == "std::collections::hash::map::HashMap::get" and "child_line_cache" in canon(b, c.args[0])]
+        ins = [c for c in b.calls() if c.callee == "std::collections::hash::map::HashMap::insert" and "child_line_cache" in canon(b, c.args[0])]
+        ok = len(gets) == 1 and len(ins) == 1
+        why = "lookups %d, stores %d on child_line_cache" % (len(gets), len(ins))
+        if ok:
+            g, i = gets[0], ins[0]
+            missed = any(f[1] == "is" and f[2] == ("None",) and f[0].startswith("get(") and "child_line_cache" in f[0] for f in dominating_variant_facts(prog, b, r.bb))
+            same_key = canon(b, g.args[1]) == canon(b, i.args[1])
+            loops = [L for L in b.loops().values() if r.bb in L]
+            after = bool(loops) and all(i.bb not in L for L in loops) and i.bb in b.reach_from(r.bb) and not (g.bb in b.reach_from(r.bb))
+            # the hit arm returns the cached value without solving again
+            hit_returns = not any(r.bb in b.reach_from(t, include_start=True) for v, t in _switch_after(b, g) if v == "Some")
+            # every way from the recursive call to a `Some(..)` result passes the store
+            some_blocks = {bb for bb, _, st in b.stmts() if st["k"] == "assign" and st["dst"]["l"] == 0 and st["rv"]["k"] == "aggregate" and st["rv"].get("variant") == "Some"}
+            some_blocks = {x for x in some_blocks if x in b.reach_from(r.bb)}
+            always_stored = bool(some_blocks) and not b.can_reach_avoiding(r.bb, some_blocks, {i.bb})
+            ok = missed and same_key and after and hit_returns and always_stored
+            why = "lookup-miss dominates the call: %s; same key stored: %s; stored after the loop over the child lines: %s; a hit does not solve again: %s; every successful result is stored: %s" % (missed, same_key, after, hit_returns, always_stored)
+        rep.check(ok, R, "memoised:%s" % short(b.npath), "the recursive solve of child lines in %s is not memoised (%s)" % (short(b.npath), why), where=r.where(),
+                  instance={"body": short(b.npath), "cache": "child_line_cache", "protocol": "get(key) miss -> solve children -> insert(key)"})
+
+
+def _switch_after(b, site):
+    """(variant name, target) pairs of the discriminant switch that tests the result of call `site` (followed through straight-line blocks)"""
+    from progress import discr_source
+    cur = site.t.get("target")
+    hops = 0
+    while cur is not None and hops < 6:
+        t = b.blocks[cur]["term"]
+        if t["k"] == "switch" and discr_source(b, cur):
+            out = []
+            for v, tgt in t["targets"]:
+                out.append(("Some" if v == 1 else "None", tgt))
+            out.append(("Some" if all(v == 0 for v, _ in t["targets"]) else "None", t["otherwise"]))
+            return out
+        if t["k"] in ("goto", "call", "drop") and b.succ[cur]:
+            cur = b.succ[cur][0]
+            hops += 1
+        else:
+            break
+    return []
+
+
 def check(prog, rep, tier, cfg):
     import panic
     check_a(prog, rep)
@@ -612,3 +677,4 @@ def check(prog, rep, tier, cfg):
     check_c(prog, rep)
     check_d(prog, rep)
     check_e(prog, rep)
+    check_f(prog, rep)
